@@ -513,24 +513,8 @@ theorem runLoop_from (g : α → α) (xs : List α) (hn : xs.length < 2 ^ 63) :
 
 /-! ### order in which the targets of an unpacking are bound -/
 
-/-- the non-starred targets are bound strictly left to right, the starred target last -/
-theorem assignOrder_starred (l r : Nat) :
-    assignOrder l r true = (List.range (l + 1 + r)).filter (· ≠ l) ++ [l] := by
-  unfold assignOrder
-  simp only [↓reduceIte, List.append_cancel_right_eq]
-  have h1 : List.range (l + 1 + r) = List.range l ++ [l] ++ (List.range r).map (· + (l + 1)) := by
-    rw [show l + 1 + r = (l + 1) + r by omega, List.range_add, List.range_succ]
-    simp [Nat.add_comm]
-  rw [h1]
-  simp only [List.filter_append, List.filter_map]
-  have hl : (List.range l).filter (fun x => decide (x ≠ l)) = List.range l := by
-    apply List.filter_eq_self.mpr
-    intro a ha; simp at ha; simp; omega
-  have hr : (List.range r).filter ((fun x => decide (x ≠ l)) ∘ fun x => x + (l + 1)) = List.range r := by
-    apply List.filter_eq_self.mpr
-    intro a _; simp; omega
-  rw [hl, hr]
-  simp [Nat.add_assoc]
+theorem assignOrder_starred (l r : Nat) : assignOrder l r true = List.range (l + 1 + r) := by
+  simp [assignOrder]
 
 theorem assignOrder_plain (l : Nat) : assignOrder l 0 false = List.range l := by
   simp [assignOrder]
